@@ -31,6 +31,10 @@ ROOT = os.path.dirname(os.path.dirname(os.path.abspath(__file__)))
 EXIT_OK, EXIT_VIOLATION, EXIT_INCONCLUSIVE = 0, 1, 3
 
 
+STUB_MARKERS = ("Fake", "'Rec'", "Token", "ModelPatch", "SimpleNamespace", "LinePoints", "XYZCoords", "SpecTree", "H5Group",
+                "H5Dataset", "FakePath", "FakeFile", "'Frame'", "'Col'", "'Cat'", "'T' object", "UFCosmology", "UFCustom", "fsmodel")
+
+
 class Check:
     """One assertion produced by a harness body.
 
@@ -296,6 +300,12 @@ def run_harness(h: Harness, res: Result, *, tier, timeout_ms, seed, known, prop,
             res.stats["raised"] += 1
             if h.must_fail:
                 sat_seen = True
+                continue
+            # an exception caused by a stand-in object of the harness lacking something the code now uses is a
+            # harness limitation, not a property violation
+            msg = str(p["exc"])
+            if isinstance(p["exc"], (AttributeError, TypeError, NotImplementedError)) and any(k in msg for k in STUB_MARKERS):
+                res.inconclusive.append("%s: the code used a facility the harness stand-in does not model: %s" % (h.name, msg[:160]))
                 continue
             # unexpected exception on a feasible path -> candidate violation
             what = "raise:" + type(p["exc"]).__name__
